@@ -1,5 +1,6 @@
 import TsVerif.Common.IO
 import TsVerif.C19.Judge
+import TsVerif.C19.Timed
 /-!
 Driver for C19.
 
@@ -226,6 +227,15 @@ def nontrivial (kv : List (String × String)) : Bool :=
 def runCase (id : String) (kv : List (String × String)) (cache : Cache) : String × Cache :=
   -- a case that stalled twice (machine stalled, wall-clock limit hit) carries no verdict
   if look kv "timing" == "1" then (s!"{id} kind={look kv "kind"} corr=skip:timing variant=both judge=inconclusive nontrivial=0", cache) else
+  if look kv "kind" == "default" then
+    -- the loader's REAL default lock timeout: a later loader against a stale lock, library absent
+    let res := look kv "results"
+    let el := natOf' (look kv "elapsed_ms")
+    let corr := if res == "ok2" && look kv "finallib" == "v2" && look kv "lockleft" == "0" then "ok"
+      else s!"DIFF:model-solo-run-ends-ok-with-fresh-library-and-no-lock:real:{res}:{look kv "finallib"}:lockleft:{look kv "lockleft"}"
+    let j := if res == "ok2" && el ≤ defaultLoadBoundMs * natOf' (look kv "attempts") then "ok"
+      else s!"FAIL:default-timeout:later-load-against-stale-lock:{res}:after:{el}ms:bound:{defaultLoadBoundMs}ms:protocol-constant:{lockTimeoutMs}ms"
+    (s!"{id} kind=default corr={corr} variant=both judge={j} nontrivial=1 elapsed_ms={el}", cache) else
   let (o, bad) := outcomeOfReal kv
   let j := judgeStr (look kv "lock" == "1") o bad
   let nt := if nontrivial kv then "1" else "0"
